@@ -148,6 +148,16 @@ def search(drv, seed, tier='quick'):
                 if len(extra) >= 3:
                     break
         pts += extra
+        if gname == 'g1':
+            # valid G1 points whose x is within 40 of 0 or of q (cofactor 1: every curve point is in G1); a coordinate
+            # near q shares q's top limbs - the boundary of every "below the modulus" test on a VALID encoding
+            near = []
+            for x in list(range(Q - 1, Q - 41, -1)) + list(range(1, 41)):
+                y = S.fq_sqrt((x * x * x + 5) % Q)
+                if y is not None and y != 0:
+                    near.append((x, y))
+                    near.append((x, Q - y))
+            pts += near[:8] + [p_ for p_ in near if p_[0] > Q // 2][:4]
         # ---------------- encoders: every representative, three formats, round trip
         reqs = []
         for P in pts:
